@@ -282,6 +282,8 @@ def oracle_stream(ctx, n, salt):
                       "leak": not rg.leaky_check(p, ns)})
         ns2 = rg.naming_shadow_safe(p, r)
         items.append({"kind": "pair", "p": p, "na": nd, "nb": ns2, "cls": "shadow-leak-safe", "leak": False})
+        nc = rg.naming_caps(p, r)
+        items.append({"kind": "pair", "p": p, "na": nd, "nb": nc, "cls": "capitalised", "leak": not rg.leaky_check(p, nc)})
         for j, (ss, k, b, lv) in enumerate(rg.plant_violations(p, r, 3)):
             items.append({"kind": "planted", "p": p, "na": nd, "at": (ss, k, b), "cls": "planted", "leak": lv,
                           "fn_parens": (1 + i % 2) if j == 2 else 0})
